@@ -146,12 +146,20 @@ of every run — 134 000 per quick run — but not yet proved in Lean, see docs/
         (hr : if E.allZero (l.fp.getD []) then natOfDigits l.ip ≤ 2^53 else natOfDigits l.ip < 2^33) :
         roundTripF64 p typ l.text = roundTrip p typ l.text
 
-What IS proved of the bridge is its numerical core (`f64_sixth_decimal_partial`): a double within half an ulp of a
-six-place decimal is printed by `'%f'` with exactly the digits of that decimal as soon as its exponent is ≤ -20 —
-which is the case for every double below 2^33, and for none from 2^33 on. Missing for the full `f64_bridge`: that
-`nearestF64` returns such a double (its definition rounds to nearest at a 53-bit quotient; validated against
-CPython on every literal of every run), the same argument for `== 0`, `== int(x)`, `-1 < x < 1`, and that
-`natToDigits` of the two halves of `n6` spells the literal's digits.
+What IS proved of the bridge (wave 3: the window itself, not only its core):
+* `f64_conversion_half_ulp` — the conversion of the model (`nearestF64`, the function the driver runs against
+  CPython's `float()` on every literal) returns, for EVERY `num / den`, a double within half a unit in the last place,
+  whatever exponent it chose;
+* `f64_window_exponent` — a normal double that is the conversion of a decimal with at most six fraction digits and
+  value below 2^33 has exponent ≤ -20 (because `10^6 < 2^20`): the bound 2^33 of `C18-float-digits` is exactly where
+  this stops;
+* `f64_pctF_window_partial` — hence `'%f'` of the double of every such literal prints exactly the literal's value on
+  six places (no closeness hypothesis any more: it is derived from `nearestF64` itself);
+* `f64_sixth_decimal_partial` — the numerical core used by the above.
+Missing for the full `f64_bridge`: that the double of a non-zero literal in the window is normal with a negative
+exponent (`2^52 ≤ m`, `e < 0`: the exponent selection `chooseExp` with `Nat.log2`; hypotheses of
+`f64_pctF_window_partial`, true on every literal of every run), the same argument for `== 0`, `== int(x)`,
+`-1 < x < 1`, `str(int(x))`, and that `natToDigits` of the two halves of `n · 10^(6-k)` spells the literal's digits.
 
 Outside that window the implementation really is lossy: -/
 
@@ -169,6 +177,38 @@ theorem f64_sixth_decimal_partial (neg : Bool) (m j n6 : Nat) (hj : 20 ≤ j)
 example : 2 * (7205759403792794 * 10 ^ 6 - 100000 * 2 ^ 56) ≤ 10 ^ 6 ∧
     2 * (100000 * 2 ^ 56 - 7205759403792794 * 10 ^ 6) ≤ 10 ^ 6 ∧
     toF64 [] (cps "0") (cps "1") = some { neg := false, m := 7205759403792794, e := -56 } := by decide +kernel
+
+/-- accuracy of the float conversion the binary64 layer uses (for all `num`, `den > 0`): the double `m · 2^-j` that
+`nearestF64` returns for `num / den` is within half a unit in the last place, `|m / 2^j - num / den| ≤ 2^-(j+1)`
+(multiplied out); `nearestF64` is tied to CPython's `float()` by the correspondence on every literal -/
+theorem f64_conversion_half_ulp (num den : Nat) (hd : 0 < den) (m j : Nat)
+    (h : nearestF64 num den = some (m, -(j : Int))) (hj : 0 < j) :
+    2 * (m * den - num * 2 ^ j) ≤ den ∧ 2 * (num * 2 ^ j - m * den) ≤ den :=
+  nearestF64_half_ulp num den hd m j h hj
+
+/-- **the window of `C18-float-digits` is where it is**: the (normal) double of a decimal `n / 10^k`, `k ≤ 6`, below
+`2^33` has binary exponent `≤ -20`, so that half an ulp is smaller than half a unit of the sixth decimal place -/
+theorem f64_window_exponent (n k m j : Nat) (hk : k ≤ 6) (hj : 0 < j) (hm : 2 ^ 52 ≤ m)
+    (hn : n < 2 ^ 33 * 10 ^ k) (h : nearestF64 n (10 ^ k) = some (m, -(j : Int))) : 20 ≤ j :=
+  window_exponent n k m j hk hj hm hn h
+
+/-- the `'%f'` step of `f64_bridge` on the whole window (partial: normality and sign of the exponent are hypotheses,
+see above): for every literal with digits `n` and `k ≤ 6` fraction digits, value below `2^33`, the double CPython
+holds is printed by `'%f'` as exactly `n · 10^(6-k)` on six places — the literal's value, no digit changed -/
+theorem f64_pctF_window_partial (neg : Bool) (n k m j : Nat) (hk : k ≤ 6) (hj : 0 < j) (hm : 2 ^ 52 ≤ m)
+    (hn : n < 2 ^ 33 * 10 ^ k) (h : nearestF64 n (10 ^ k) = some (m, -(j : Int))) :
+    F.pctF { neg := neg, m := m, e := -(j : Int) } =
+      (if neg then [cMinus] else []) ++ natToDigits (n * 10 ^ (6 - k) / 10 ^ 6) ++ cDot ::
+        (List.replicate (6 - (natToDigits (n * 10 ^ (6 - k) % 10 ^ 6)).length) cZero ++
+          natToDigits (n * 10 ^ (6 - k) % 10 ^ 6)) :=
+  pctF_in_window neg n k m j hk hj hm hn h
+
+/-- the hypotheses are satisfiable — `8589934591.999999` (the largest six-place decimal below 2^33) has the normal
+double `9007199254740991 · 2^-20` (exponent exactly at the bound) — and are not met just above:
+`8589934592.3` has exponent `-19` -/
+example : nearestF64 8589934591999999 (10 ^ 6) = some (9007199254740991, -((20 : Nat) : Int)) ∧ 2 ^ 52 ≤ 9007199254740991 ∧
+    8589934591999999 < 2 ^ 33 * 10 ^ 6 ∧
+    nearestF64 85899345923 (10 ^ 1) = some (4503599627527782, -((19 : Nat) : Int)) := by decide +kernel
 
 
 /-- the witness of `C18-float-digits`, machine-checked: CPython's arithmetic writes `8589934592.3px` as
